@@ -154,7 +154,7 @@ func (w *World) send6(c *Client6, m *dhcpv6.Message, kind string, meta ...interf
 	}
 	c.Sent++
 	out := encapsulate(m, c.Relays)
-	k := fmt.Sprintf("%s %s xid=%x", c, kind, m.TransactionID)
+	k := fmt.Sprintf("%s %s xid=%x", c, kind, m.TransactionID[:])
 	if len(c.Relays) > 0 {
 		k += fmt.Sprintf(" relayed x%d", len(c.Relays))
 	}
